@@ -32,8 +32,9 @@ const c01ClsPending = "c01-answers-from-last-analysis"
 // leaf of v2 is symbolic, so the comparison is decided for every spelling of it
 func c01Versions() (v1, v2 string, line uint32, char uint32) {
 	leaf := zzverif.Text("leaf", "fgh", 1)
-	v1 = "account ex:food\ncommodity USD\n\n2024-01-15 * Shop | weekly ; trip: rome\n    ex:food  10 USD\n    as:cash\n"
-	v2 = "account ex:" + leaf + "uel\ncommodity EUR\ninclude other.journal\n\n2024-02-20 Garage ; car: vw\n    ex:" + leaf + "uel  20.5 EUR\n    as:bank  -20.5 EUR\n\n2024-02-21 Garage\n    ex:" + leaf + "uel  1 EUR\n    as:bank\n"
+	// both end with a header whose payee has a posting template in that version (inline completion)
+	v1 = "account ex:food\ncommodity USD\n\n2024-01-15 * Shop | weekly ; trip: rome\n    ex:food  10 USD\n    as:cash\n\n2024-03-01 Shop | weekly\n"
+	v2 = "account ex:" + leaf + "uel\ncommodity EUR\ninclude other.journal\n\n2024-02-20 Garage ; car: vw\n    ex:" + leaf + "uel  20.5 EUR\n    as:bank  -20.5 EUR\n\n2024-02-21 Garage\n    ex:" + leaf + "uel  1 EUR\n    as:bank\n\n2024-03-01 Garage\n"
 	return v1, v2, 5, 6 // cursor inside the account of v2's first posting
 }
 
@@ -192,7 +193,16 @@ func c01Ask(s *Server, uri protocol.DocumentURI, line, char uint32, only int) c0
 	}
 
 	if want() {
-		raw := `{"textDocument":{"uri":"` + string(uri) + `"},"position":{"line":` + zzverif.Itoa(int(line+5)) + `,"character":0}}`
+		// on the empty last line, below the header that ends the document
+		last := 0
+		if doc, ok := s.GetDocument(uri); ok {
+			for i := 0; i < len(doc); i++ {
+				if doc[i] == '\n' {
+					last++
+				}
+			}
+		}
+		raw := `{"textDocument":{"uri":"` + string(uri) + `"},"position":{"line":` + zzverif.Itoa(last) + `,"character":0}}`
 		il, _ := s.InlineCompletion(ctx, json.RawMessage(raw))
 		r = "<nil>"
 		if il != nil {
@@ -209,7 +219,7 @@ func c01Ask(s *Server, uri protocol.DocumentURI, line, char uint32, only int) c0
 // c01FromAnalysis: answers that the server computes from the include tree stored by the
 // last background analysis (without a workspace root)
 func c01FromAnalysis(answer string) bool {
-	for _, n := range []string{"hover: ", "completion: "} {
+	for _, n := range []string{"hover: ", "completion: ", "inline: "} {
 		if len(answer) >= len(n) && answer[:len(n)] == n {
 			return true
 		}
